@@ -1,11 +1,13 @@
 /-
   C09 — every field governed by a marker is checked (no silent validation gaps).
-  Proved here: coverage on Clean declarations (a corollary of C07) and "inapplicable struct-level
-  markers emit nothing". The struct-level ≡ per-field placement claim (equal as multisets) and the
+  Proved here: coverage on Clean declarations (a corollary of C07), "inapplicable struct-level
+  markers emit nothing", and the hand-down of markers written on a nested anonymous struct to its direct
+  leaf fields (`c09_nest_marker…`, Gvlean/Proofs/NestMarker.lean). The struct-level ≡ per-field placement claim (equal as multisets) and the
   shapes outside `cleanDecl` (multi-name fields, grouped declarations, embedded fields) are decided
   by the correspondence run, see DESIGN §4 C09.
 -/
 import Gvlean.Props.C07
+import Gvlean.Proofs.NestMarker
 
 namespace Props
 open Go Gen Proofs
@@ -40,5 +42,84 @@ theorem c09_every_name (S : String) (tm : List Marker) (parent : List String) (a
     analyzeField S tm parent (.leaf [a, b] ty doc) =
       analyzeField S tm parent (.leaf [a] ty doc) ++ analyzeField S tm parent (.leaf [b] ty doc) := by
   simp [analyzeField, leafBlocks]
+
+/-! ### markers written on a nested anonymous struct
+
+`//govalid:required` (or any other marker list `ml`) on `Ship struct{…}` is handed down to the direct leaf fields of
+`Ship`. Shape covered: no struct-level markers, the nested struct's own fields Clean, `ml` documented for every
+direct leaf; struct-typed members stay silent (`hsil`; `strukt_required_silent` discharges it for `required`). -/
+
+/-- the blocks of the nested struct report: the handed-down rules of the direct leaves (under the path WITHOUT the
+    nested struct's name — known finding C07-K8), then the nested fields' own rules under the full path -/
+theorem c09_nest_marker (S : String) (recv : Val) (fields : List FieldT) (n : String) (parent : List String)
+    (sv nv : Val) (ml : List Marker)
+    (hclean : cleanFields [] fields = true)
+    (hok : ∀ names ty doc, FieldT.leaf names ty doc ∈ fields → ∀ m ∈ ml, markerOK ty m = true)
+    (hsil : ∀ x, runChecks nv (mkChecks S parent [x] Ty.strukt ml) = some [])
+    (hsv : lookupPath recv parent = some sv) (hn : lookupField sv n = some nv)
+    (e0 e1 : List Spec.Entry)
+    (hd : Spec.directEntries (S :: parent) ml nv fields = some e0)
+    (ho : Spec.fieldsEntries [] (S :: (parent ++ [n])) nv fields = some e1) :
+    blocksEntries recv (analyzeNest S [] parent ml fields [n]) = some ((e0 ++ e1).map conv) :=
+  nest_marked_sound S recv fields n parent sv nv ml hclean hok hsil hsv hn e0 e1 hd ho
+
+/-- "a value violating any written rule is never accepted": a violated handed-down rule makes the report non-empty -/
+theorem c09_nest_marker_never_accepted (S : String) (recv : Val) (fields : List FieldT) (n : String) (parent : List String)
+    (sv nv : Val) (ml : List Marker)
+    (hclean : cleanFields [] fields = true)
+    (hok : ∀ names ty doc, FieldT.leaf names ty doc ∈ fields → ∀ m ∈ ml, markerOK ty m = true)
+    (hsil : ∀ x, runChecks nv (mkChecks S parent [x] Ty.strukt ml) = some [])
+    (hsv : lookupPath recv parent = some sv) (hn : lookupField sv n = some nv)
+    (e0 e1 : List Spec.Entry) (e : Spec.Entry)
+    (hd : Spec.directEntries (S :: parent) ml nv fields = some e0)
+    (ho : Spec.fieldsEntries [] (S :: (parent ++ [n])) nv fields = some e1) (he : e ∈ e0 ++ e1) :
+    ∃ rep, blocksEntries recv (analyzeNest S [] parent ml fields [n]) = some rep ∧ conv e ∈ rep :=
+  ⟨_, c09_nest_marker S recv fields n parent sv nv ml hclean hok hsil hsv hn e0 e1 hd ho, List.mem_map_of_mem he⟩
+
+/-- the Path aside, the handed-down entries are the ones the Spec demands under the FULL path (rule and value, in order):
+    this is the comparison the correspondence run makes for such structs -/
+theorem c09_nest_marker_rv (S : String) (parent : List String) (n : String) (ml : List Marker) (nv : Val) (fields : List FieldT) :
+    (Spec.directEntries (S :: parent) ml nv fields).map (·.map Spec.Entry.rv) =
+      (Spec.directEntries (S :: (parent ++ [n])) ml nv fields).map (·.map Spec.Entry.rv) :=
+  directEntries_rv _ _ ml nv fields
+
+/-- the same against the Spec WITH markers on nested structs (`Spec.nestEntriesN`, what the correspondence run asks the
+    Spec driver for): Path aside, the model reports exactly the demanded entries, in order -/
+theorem c09_nest_marker_specN (S : String) (recv : Val) (fields : List FieldT) (n : String) (parent : List String)
+    (sv nv : Val) (doc : List String)
+    (hclean : cleanFields [] fields = true)
+    (hok : ∀ names ty d, FieldT.leaf names ty d ∈ fields → ∀ m ∈ sortById (markersOfDoc doc), markerOK ty m = true)
+    (hsil : ∀ x, runChecks nv (mkChecks S parent [x] Ty.strukt (sortById (markersOfDoc doc))) = some [])
+    (hsv : lookupPath recv parent = some sv) (hn : lookupField sv n = some nv)
+    (es : List Spec.Entry) (hN : Spec.nestEntriesN [] doc (S :: parent) sv fields [n] = some es) :
+    ∃ rep, blocksEntries recv (analyzeNest S [] parent (sortById (markersOfDoc doc)) fields [n]) = some rep ∧
+      rep.map rvG = es.map Spec.Entry.rv :=
+  nest_marked_specN S recv fields n parent sv nv doc hclean hok hsil hsv hn es hN
+
+/-- `Spec.violatedN` is a conservative extension of `Spec.violated`: where no nested struct carries markers they coincide,
+    so everything proved about `violated` on Clean declarations (C07, C09) holds for `violatedN` verbatim -/
+theorem c09_specN_conservative (d : Decl) (v : Val) (h : plainFields d.fields = true) : Spec.violatedN d v = Spec.violated d v :=
+  violatedN_eq d v h
+
+theorem c09_specN_clean (d : Decl) (v : Val) (es : List Spec.Entry) (hc : cleanDecl d = true)
+    (hv : Spec.violatedN d v = some es) : exec (gen d) bg (some v) = toOutcome es := by
+  rw [violatedN_eq d v (clean_plain_fields _ d.fields hc)] at hv
+  exact c07 d v es hc hv
+
+/-- `required` handed down to a struct-typed member reports nothing -/
+theorem c09_nest_required_struct_member (S : String) (parent : List String) (x : String) (nv : Val) :
+    runChecks nv (mkChecks S parent [x] Ty.strukt [{ id := "govalid:required", expr := none }]) = some [] :=
+  strukt_required_silent S parent x nv
+
+/-- non-vacuity: the hypotheses of `c09_nest_marker` are met by `Ship struct{ Carrier string; Weight int }` under `required` -/
+example : cleanFields [] [.leaf ["Carrier"] (.basic .string) [], .leaf ["Weight"] (.basic .int) []] = true ∧
+    (∀ names ty doc, FieldT.leaf names ty doc ∈ [FieldT.leaf ["Carrier"] (.basic .string) [], .leaf ["Weight"] (.basic .int) []] →
+      ∀ m ∈ [({ id := "govalid:required", expr := none } : Marker)], markerOK ty m = true) := by
+  constructor
+  · simp [cleanFields, cleanField, markersOfDoc, sortById]
+  · intro names ty doc hm m hmm
+    simp only [List.mem_cons, List.mem_singleton, List.not_mem_nil, or_false] at hm hmm
+    subst hmm
+    rcases hm with h | h <;> (injection h with _ h2 _; subst h2; decide +kernel)
 
 end Props
